@@ -309,9 +309,10 @@ CHECKS = {
         "Generated sequences (offsets to 1e9, spreads to 1e-3, 1..500 values, "
         "chunkings, permutations, 2-4 correlated series) are compared with "
         "exact rational arithmetic under a stated data-scale tolerance; the "
-        "repeat loop is driven by scripted generators and its call log is "
-        "checked against the stopping rule.  High confidence over the "
-        "generated domain, not a proof.",
+        "repeat loop is driven by scripted generators (also ones that run "
+        "out, and with generated arguments for the sampled function) and its "
+        "call log is checked against the stopping rule.  High confidence over "
+        "the generated domain, not a proof.",
         "Tolerance 8*n*2^-53*max|x| defines 'floating-point accuracy relative "
         "to the data scale'; count >= 1.",
         "DESIGN.md section 4, C19",
